@@ -19,9 +19,12 @@ import (
 // histories. There is no schedule or fault in this property; it is the model-based half of
 // the technique only (DESIGN §3 C15).
 
-var c15Literals = []string{"text/css", "text/x", "a/b", "A/B", "text/css+x", "application/json", "application/ld+json", "text/javascript", "image/svg+xml", "text/html"}
+// the last four keys can never be hit under the documented rules (a call's type/subtype is
+// trimmed and cut at the first ';'): registering them must not change any dispatch
+var c15Literals = []string{"text/css", "text/x", "a/b", "A/B", "text/css+x", "application/json", "application/ld+json", "text/javascript", "image/svg+xml", "text/html",
+	"text/html ", " text/css", "text/x;q=1", "a/b "}
 var c15Patterns = []string{`^text/`, `css$`, `.*`, `[/+]json$`, `^text/css$`, `^(application|text)/(x-)?javascript$`, `(?i)^TEXT/`, `/x`, `^a/b$`, `\+xml$`, `^module$`, `x`}
-var c15Bases = append(append([]string{}, c15Literals...), "text/plain", "text/y", "application/x+json", "a/bc", "TEXT/CSS", "module", "application/xhtml+xml", "b/a")
+var c15Bases = append(append([]string{}, c15Literals[:10]...), "text/plain", "text/y", "application/x+json", "a/bc", "TEXT/CSS", "module", "application/xhtml+xml", "b/a")
 var c15Params = []string{"charset=utf-8", "q=0.8", "version=2", "inline=1", "x", "charset=UTF-8", "Q=1"}
 
 // the reference model, written from the doc comments of Add*, Match and Minify
